@@ -9,6 +9,8 @@ Leaf kinds:
     s                m(V1): two solutions on the variable of the first leaf (shared)
     k                k(Vi): one solution produced by a clause ending in a cut, i.e. the
                      callee yields a truthy value
+    t                t2(V1): a test on the variable of the first leaf, false for 1, true for 2 (not
+                     in LEAVES; used by families that ask for it)
 Leaf i (left to right) owns variable Vi; all Vi are head arguments, so an answer
 identifies the path that produced it.
 """
@@ -23,6 +25,7 @@ LEAF_PROGRAM = [
     (F('m', C(2)), TRUE),
     (F('k', C(1)), CUT),
     (F('k', C(2)), TRUE),
+    (F('t2', C(2)), TRUE),
 ]
 
 _cache = {}
@@ -101,6 +104,11 @@ def instantiate(t):
                 return call(A('z'))
             if k == 's':
                 return call(F('m', V('V1')))
+            if k == 't':
+                # a TEST on the variable of the FIRST leaf that fails for its first solution (1) and
+                # succeeds for a later one (2): whether a construct has committed to the first
+                # solution of its condition shows in the answers
+                return call(F('t2', V('V1')))
             if k == 'q':
                 # a TEST on the variable P of the goal m(P) that the context puts in front of the
                 # body: succeeds for P = 1, fails for P = 2 - its outcome differs between the entries
